@@ -122,7 +122,3 @@ Definition serialize (files : list entry) : outcome bytes :=
   let '(finfo, raw) := fold_left (file_step base) (map snd files) ([], []) in
   Ok (enc BE 4 MAGIC ++ enc BE 2 (trunc_w 16 n) ++ [0; 0]
       ++ flat_map row (combine taddrs finfo) ++ txt ++ raw).
-
-(* what the correspondence prints for a serialize case: the image and its re-parse *)
-Definition serialize_then_parse (m : mode) (files : list entry) : outcome (bytes * outcome (list entry)) :=
-  img <- serialize files ;; Ok (img, parse m img).
